@@ -34,13 +34,13 @@ def max (a b : Stamp) : Stamp := if a.lt b then b else a
     `fix:` commit recorded in known_findings.json it is no longer used by
     `ReplicatedValue::merge`; kept because it is still public API and because the
     counterexample theorem of C07 is stated about it. -/
-def mergeClock (a b : Stamp) : Stamp := { time := Nat.max a.time b.time, rid := a.rid }
+def mergeClock (a b : Stamp) : Stamp := { time := Max.max a.time b.time, rid := a.rid }
 
 /-- `LamportClock::tick` -/
 def tick (c : Stamp) : Stamp := { c with time := c.time + 1 }
 
 /-- `LamportClock::update` -/
-def update (c other : Stamp) : Stamp := { c with time := Nat.max c.time other.time + 1 }
+def update (c other : Stamp) : Stamp := { c with time := Max.max c.time other.time + 1 }
 
 end Stamp
 
@@ -93,11 +93,11 @@ def orsetMergeElems (a b : NMap NSet) : NMap NSet :=
 /-- `CrdtValue::try_merge` (`none` = `Err(CrdtTypeMismatchError)`) -/
 def tryMerge : Crdt → Crdt → Option Crdt
   | lww a, lww b => some (lww (a.merge b))
-  | gcounter a, gcounter b => some (gcounter (NMap.merge Nat.max a b))
+  | gcounter a, gcounter b => some (gcounter (NMap.merge Max.max a b))
   | pncounter p n, pncounter p' n' =>
-      some (pncounter (NMap.merge Nat.max p p') (NMap.merge Nat.max n n'))
+      some (pncounter (NMap.merge Max.max p p') (NMap.merge Max.max n n'))
   | gset a, gset b => some (gset (NSet.union a b))
-  | orset e s, orset e' s' => some (orset (orsetMergeElems e e') (NMap.merge Nat.max s s'))
+  | orset e s, orset e' s' => some (orset (orsetMergeElems e e') (NMap.merge Max.max s s'))
   | hash a, hash b => some (hash (NMap.merge Lww.merge a b))
   | _, _ => none
 
@@ -146,10 +146,10 @@ def stampMerge : StampMerge → Stamp → Stamp → Stamp
     about the pinned code (`clockMerge`) are both statements about *this* function. -/
 def mergeWith (sm : StampMerge) (a b : RV) : RV :=
   { crdt := Crdt.mergeWithTimestamps a.crdt b.crdt a.ts b.ts
-    vc := optMerge (NMap.merge Nat.max) a.vc b.vc
-    expiry := optMerge Nat.max a.expiry b.expiry
+    vc := optMerge (NMap.merge Max.max) a.vc b.vc
+    expiry := optMerge Max.max a.expiry b.expiry
     ts := stampMerge sm a.ts b.ts
-    rf := optMerge Nat.max a.rf b.rf }
+    rf := optMerge Max.max a.rf b.rf }
 
 /-- the merge of the current tree -/
 def merge (a b : RV) : RV := mergeWith .ordMax a b
